@@ -1,5 +1,6 @@
 import RvModel.RealInst
 import RvModel.Gen.Defs
+import RvModel.Lemmas.Erf
 import Mathlib.Analysis.SpecialFunctions.ExpDeriv
 import Mathlib.Analysis.SpecialFunctions.Pow.Deriv
 import Mathlib.Analysis.SpecialFunctions.Log.Deriv
@@ -93,7 +94,7 @@ theorem ScaledInvChiSquared_cdf_eq (d : Gen.ScaledInvChiSquared R) (t : ℝ) :
 
 theorem Gaussian_cdf_eq (d : Gen.Gaussian R) (t : ℝ) :
     (Gen.Gaussian.cdf_real d ⟨t⟩).val = 1 / 2 * (1 + R.erfR ((t - d.mu.val) / (d.sigma.val * Real.sqrt 2))) := by
-  simp only [Gen.Gaussian.cdf_real, R.erf_val, R.div_val, R.sub_val, R.mul_val, R.add_val, R.sqrt2_val,
+  simp only [Gen.Gaussian.cdf_real, ErfL.erfc_neg_val, R.erf_val, R.div_val, R.sub_val, R.mul_val, R.add_val, R.sqrt2_val,
     one_val, half_val]
 
 theorem LogNormal_cdf_eq (d : Gen.LogNormal R) (t : ℝ) :
